@@ -317,6 +317,10 @@ def task(args):
             if idx == 0:
                 allstr += CANARIES
             allstr += [rand_unicode(r).replace("\x00", "") for _ in range(nrand)]
+            # a few words far longer than any buffer, with the significant characters sprinkled in
+            for n in r.sample([4095, 4096, 4097, 8192, 20000, 65536, 70000], 2):
+                allstr.append("".join(r.choice(ALPHA) if i % 53 == 0 else r.choice("abcxyz") for i in range(n)))
+            res.count("long-words", 2)
             B = 400
             for b0 in range(0, len(allstr), B):
                 batch = allstr[b0:b0 + B]
